@@ -16,15 +16,20 @@ pub enum Gate {
     OpenFails,
     VerifyErr,
     VerifyOk,
+    /// the three answers (first call, second call, clone) disagree
+    VerifyMixed,
     Panic(String),
 }
 
 pub fn gate(bytes: &[u8]) -> Gate {
     match guard(|| match Fst::new(bytes) {
         Err(_) => Gate::OpenFails,
-        Ok(f) => match f.verify() {
-            Ok(()) => Gate::VerifyOk,
-            Err(_) => Gate::VerifyErr,
+        // asked once, asked again, and asked of a clone: corruption must not be
+        // certified by ANY of the answers
+        Ok(f) => match (f.verify(), f.verify(), f.clone().verify()) {
+            (Err(_), Err(_), Err(_)) => Gate::VerifyErr,
+            (Ok(()), Ok(()), Ok(())) => Gate::VerifyOk,
+            _ => Gate::VerifyMixed,
         },
     }) {
         Ok(g) => g,
@@ -37,9 +42,12 @@ pub fn gate(bytes: &[u8]) -> Gate {
 pub fn gate_map_data(intact: &[u8], bytes: &[u8]) -> Gate {
     match guard(|| match Fst::new(intact).map_err(|_| ()).and_then(|f| f.map_data(|_| bytes).map_err(|_| ())) {
         Err(_) => Gate::OpenFails,
-        Ok(f) => match f.verify() {
-            Ok(()) => Gate::VerifyOk,
-            Err(_) => Gate::VerifyErr,
+        // asked once, asked again, and asked of a clone: corruption must not be
+        // certified by ANY of the answers
+        Ok(f) => match (f.verify(), f.verify(), f.clone().verify()) {
+            (Err(_), Err(_), Err(_)) => Gate::VerifyErr,
+            (Ok(()), Ok(()), Ok(())) => Gate::VerifyOk,
+            _ => Gate::VerifyMixed,
         },
     }) {
         Ok(g) => g,
@@ -140,13 +148,13 @@ pub fn run_mutants(bytes: &[u8], bursts: bool) -> Result<u64, String> {
             m[pos] = orig ^ d;
             n += 1;
             if d.count_ones() == 1 || d == 0xff {
-                if let Gate::VerifyOk = gate_map_data(bytes, &m) {
+                if let Gate::VerifyOk | Gate::VerifyMixed = gate_map_data(bytes, &m) {
                     return Err(format!("byte {} changed {:#04x} -> {:#04x}: a reader opened on the intact file and handed the changed bytes through map_data says verify() Ok", pos, orig, orig ^ d));
                 }
                 n += 1;
             }
             match gate(&m) {
-                Gate::VerifyOk => return Err(format!("byte {} changed {:#04x} -> {:#04x}: opens and verify() says Ok", pos, orig, orig ^ d)),
+                Gate::VerifyOk | Gate::VerifyMixed => return Err(format!("byte {} changed {:#04x} -> {:#04x}: opens and verify() says Ok", pos, orig, orig ^ d)),
                 Gate::Panic(p) => return Err(format!("byte {} changed {:#04x} -> {:#04x}: {}", pos, orig, orig ^ d, p)),
                 _ => {}
             }
@@ -166,7 +174,7 @@ pub fn run_mutants(bytes: &[u8], bursts: bool) -> Result<u64, String> {
                     }
                     n += 1;
                     match gate(&m) {
-                        Gate::VerifyOk => return Err(format!("burst at {} len {} combo {}: opens and verify() says Ok", start, len, c)),
+                        Gate::VerifyOk | Gate::VerifyMixed => return Err(format!("burst at {} len {} combo {}: opens and verify() says Ok", start, len, c)),
                         Gate::Panic(p) => return Err(format!("burst at {} len {}: {}", start, len, p)),
                         _ => {}
                     }
@@ -291,7 +299,7 @@ pub fn replay(case: &Value) -> Result<String, String> {
 pub fn plan(tier: Tier) -> Plan {
     let mut p = Plan::new("C08", "model_checking");
     let thorough = tier.thorough();
-    p.rule = "(a) every single-byte mutant (every position x all 255 other values) and every 2-4 byte burst (xor masks {01,80,ff} per byte) of every FST built from subsets of U_ab3 with <= 3 keys (thorough: <= 5) plus fan-out FSTs: 'opens and verify()==Ok' is the violation, also when a reader opened on the intact file is handed the mutant through map_data (9 of the 255 values per position); (b) the trailing 4 bytes of every builder output (all subsets of U_ab3/U_abc2/U_raw2 x patterns, fan-out families, single-key ladders giving every file length 37..4150 and 150 lengths around each of 2^13..2^17; built maps whose checksum VALUE is 0, 1, 2^31-1, 2^31, u32::MAX-1, u32::MAX, the mask constant, 0x0000ffff, 0xffff0000 - found by solving for 32 free value bits over GF(2)) equal an independent bitwise masked CRC-32C, and verify() passes at every start offset 1..15 from a 16-byte boundary; (c) through hook H3 every 2-cut and 3-cut of buffers of length 0..64 (3 contents) and cuts at 0,1,15,16,17,31,32,33 from either end for lengths up to 4096; non-trivial = mutants + chunkings with >= 2 non-empty chunks".into();
+    p.rule = "(a) every single-byte mutant (every position x all 255 other values) and every 2-4 byte burst (xor masks {01,80,ff} per byte) of every FST built from subsets of U_ab3 with <= 3 keys (thorough: <= 5) plus fan-out FSTs: 'opens and verify()==Ok' (asked once, asked a second time, or asked of a clone of the reader) is the violation, also when a reader opened on the intact file is handed the mutant through map_data (9 of the 255 values per position); (b) the trailing 4 bytes of every builder output (all subsets of U_ab3/U_abc2/U_raw2 x patterns, fan-out families, single-key ladders giving every file length 37..4150 and 150 lengths around each of 2^13..2^17; built maps whose checksum VALUE is 0, 1, 2^31-1, 2^31, u32::MAX-1, u32::MAX, the mask constant, 0x0000ffff, 0xffff0000 - found by solving for 32 free value bits over GF(2)) equal an independent bitwise masked CRC-32C, and verify() passes at every start offset 1..15 from a 16-byte boundary; (c) through hook H3 every 2-cut and 3-cut of buffers of length 0..64 (3 contents) and cuts at 0,1,15,16,17,31,32,33 from either end for lengths up to 4096; non-trivial = mutants + chunkings with >= 2 non-empty chunks".into();
     p.assumptions = vec![
         "independent reference: bit-by-bit reflected CRC-32C (0x82F63B78), validated on the RFC 3720 vector, rotate-right-15 + 0xA282EAD8 mask".into(),
         "chunking by a sink: policy sinks (cap 1..16, Interrupted before every call) here; the full answer-schedule space is C07's".into(),
